@@ -317,6 +317,35 @@ def c05_third(params, tier):
     return [("c05_third:%s" % sorted(p.items()), b.h, U, {})]
 
 
+@family("C05", "C06")
+def c05_after_cross_app_failure(params, tier):
+    """A client of another app names the id of a live two-sided mailbox (this fails internally: known finding
+    F8).  Whatever that failure leaves behind, a third side of the right app is still turned away."""
+    if params is None:
+        return [{"cmd": c, "usage": u} for c in ("open", "close") for u in (0, 1)]
+    p = params
+    b = HB()
+    b.tag = "c05x"
+    A = b.conn("app", "s1")
+    b.send(A, type="open", mailbox="xid")
+    b.add(A, "pake")
+    B = b.conn("app", "s2")
+    b.send(B, type="open", mailbox="xid")
+    b.add(B, "pake")
+    X = b.conn("app2", "s9")
+    if p["cmd"] == "open":
+        b.send(X, type="open", mailbox="xid")
+    else:
+        b.send(X, type="close", mailbox="xid", mood="happy")
+    C = b.conn("app", "s3")
+    b.send(C, type="open", mailbox="xid")
+    b.add(A, "after")
+    D = b.conn("app", "s3")
+    b.send(D, type="claim", nameplate="3")
+    b.send(D, type="open", mailbox="xid")
+    return [("c05_after_cross_app_failure:%s" % sorted(p.items()), b.h, U if p["usage"] else NU, {})]
+
+
 @family("C05", "C14")
 def c05_first_two_return(params, tier):
     """F7: after a third side was refused, a first-two side reconnects."""
